@@ -1,26 +1,24 @@
 #!/bin/bash
 # usage: tools/seedtest.sh <dir with patch.diff demo.py meta.json> [check ids...]
-# 1. confirm in a scratch worktree: demo exits 0 clean, 1 patched; repo test-suite passes with the patch
-# 2. apply to /repo, run the property's check(s) with seeds 0,1, undo.
-D=$1; shift
+# Confirms a seeded defect in its own scratch worktree of /repo (demo exits 0 clean / 1 patched, repo test-suite passes with
+# the patch) and runs the property's check(s) against that worktree (VERIF_REPO), seeds 0 and 1. /repo itself is not touched.
+D=$(cd "$1" && pwd); shift
 PID=$(python3 -c "import json;print(json.load(open('$D/meta.json'))['property'])")
 CHECKS=${@:-$PID}
 V=$(cd "$(dirname "$0")/.." && pwd)
-W=/tmp/seed/confirm
-[ -d $W ] || git -C /repo worktree add -q --detach $W HEAD
-git -C $W checkout -q --detach $(git -C /repo rev-parse HEAD) 2>/dev/null; git -C $W checkout -q -- . ; git -C $W clean -fdq
+W=/tmp/seed/wt_$(basename $D)
+[ -d $W ] && git -C /repo worktree remove --force $W 2>/dev/null
+git -C /repo worktree add -q --detach $W HEAD
 cd $W
 PYTHONPATH=$W /venv/bin/python -W ignore $D/demo.py >/dev/null 2>&1; C0=$?
-if ! git apply $D/patch.diff 2>/tmp/seed/apply.err; then echo "$D: patch does not apply: $(head -2 /tmp/seed/apply.err)"; exit 3; fi
-PYTHONPATH=$W /venv/bin/python -W ignore $D/demo.py >/tmp/seed/demo.out 2>&1; C1=$?
-T=$(PYTHONPATH=$W /venv/bin/python -m pytest -q -p no:cacheprovider --timeout=900 -x -n 6 2>&1 | tail -1)
-git checkout -q -- .; git clean -fdq
-echo "$D: demo clean=$C0 patched=$C1; suite: $T"
+if ! git apply $D/patch.diff 2>/tmp/seed/apply_$(basename $D).err; then echo "$D: patch does not apply"; git -C /repo worktree remove --force $W; exit 3; fi
+PYTHONPATH=$W /venv/bin/python -W ignore $D/demo.py >/dev/null 2>&1; C1=$?
+T=$(PYTHONPATH=$W /venv/bin/python -m pytest -q -p no:cacheprovider --timeout=900 -x -n 4 2>&1 | tail -1)
+rm -f $W/resulttable
+echo "$(basename $D): demo clean=$C0 patched=$C1; suite: $T"
 cd $V
-git -C /repo apply $D/patch.diff || exit 3
 for c in $CHECKS; do for s in 0 1; do
-  VERIF_SEED=$s ./check $c --tier quick > /tmp/seed/check_${c}_$s.log 2>&1; rc=$?
-  echo "  check $c seed $s rc=$rc: $(grep -m1 'VIOLATION' /tmp/seed/check_${c}_$s.log | cut -c1-100) | $(grep -m1 'failing input\|no longer checks' /tmp/seed/check_${c}_$s.log | cut -c1-260)"
+  VERIF_REPO=$W VERIF_SEED=$s VERIF_PROCS=4 ./check $c --tier quick > /tmp/seed/check_$(basename $D)_${c}_$s.log 2>&1; rc=$?
+  echo "  $(basename $D) check $c seed $s rc=$rc: $(grep -m1 'VIOLATION' /tmp/seed/check_$(basename $D)_${c}_$s.log | cut -c1-110) | $(grep -m1 'failing input\|no longer checks' /tmp/seed/check_$(basename $D)_${c}_$s.log | cut -c1-240)"
 done; done
-git -C /repo checkout -- .
-git -C $V checkout -- evidence 2>/dev/null
+git -C /repo worktree remove --force $W
